@@ -662,7 +662,31 @@ def rule_one_shot(ctx) -> None:
               + hazards.controls(ctx, "clematis.engine.health", ["oneshot", "late"]))
 
 
+def rule_zero_knob_forwarded(ctx) -> None:
+    """the shard fan-out must hand every shard the retrieval knobs the sequential walk uses.  A knob whose 0 is a setting
+    (`exact_recent_days = 0`: no recency window) and whose None means 'not given' must be forwarded on `is not None`: a
+    truthiness test drops an explicit 0, the shard falls back to the index default (30 days) and the parallel result differs
+    from the sequential one for exactly that configuration."""
+    from ..zero import ZeroIsValue
+    fn = ctx.prog.funcs.get("clematis.engine.stages.t2.parallel:collect_shard_hits")
+    if fn is None:
+        raise AnalysisError("anchor-vanished: clematis.engine.stages.t2.parallel:collect_shard_hits")
+    a = fn.node.args
+    allp = a.posonlyargs + a.args + a.kwonlyargs
+    defaults = [None] * (len(a.posonlyargs + a.args) - len(a.defaults)) + list(a.defaults) + list(a.kw_defaults)
+    opt = {p_.arg for p_, d in zip(allp, defaults) if isinstance(d, ast.Constant) and d.value is None and p_.annotation is not None
+           and ("int" in src(p_.annotation) or "float" in src(p_.annotation))}
+    ctx.floor("C09.SIB-T2", "optional numeric knobs of collect_shard_hits", len(opt), 1)
+    z = ZeroIsValue(ctx, fn, lambda e: False, opt_params=opt)
+    bad = list(z.conflations()) + list(z.callee_conflations())
+    ctx.check(not bad, "C09.SIB-T2", f"{fn.qual}/zero-knob-is-forwarded", fn.loc(bad[0][0]) if bad else fn.loc(),
+              f"optional numeric knobs {sorted(opt)} are forwarded to the shards on `is not None`",
+              (f"an optional retrieval knob is tested by {bad[0][2]} (`{bad[0][1][:60]}`): an explicit 0 is not forwarded to the shards, which then apply the index default - "
+               "the parallel result differs from the sequential walk, which passes 0") if bad else "")
+
+
 def run(ctx) -> None:
+    rule_zero_knob_forwarded(ctx)
     rule_one_shot(ctx)
     rule_merge(ctx)
     rule_call(ctx)
